@@ -68,6 +68,18 @@ def wellformed(v):
     return False
 
 
+KNOWN_INF = __KNOWN_INF__
+
+
+def only_nonfinite(v):
+    """every ill-formed element of v is a non-finite float"""
+    if isinstance(v, np.ndarray):
+        return all(only_nonfinite(x) for x in v.ravel().tolist())
+    if isinstance(v, (list, tuple)):
+        return all(only_nonfinite(x) for x in v)
+    return wellformed(v) or (isinstance(v, (float, np.floating)) and not math.isfinite(v))
+
+
 def _call(fi, args):
     name = GROUP[fi]
     if len(args) not in AR[name]:
@@ -79,7 +91,11 @@ def _call(fi, args):
             r = f(*([False] * extra + list(args)))
         except Exception:
             return False                       # never raises
-    return wellformed(r)                       # finite numbers, text, logicals, errors, blanks, arrays of these
+    if wellformed(r):
+        return True                            # finite numbers, text, logicals, errors, blanks, arrays of these
+    # known finding C11-overflow-to-infinity: a result that is inf / nan because an argument is text denoting an
+    # infinite number (or a number near the end of the double range) - only non-finite NUMBERS are excused
+    return bool(KNOWN_INF) and any(isinstance(a, str) and a == '1E+999' for a in args) and only_nonfinite(r)
 
 
 def total0_ok(f0: bool, f1: bool, f2: bool) -> bool:
